@@ -42,7 +42,7 @@ def to_frac(x):
     if isinstance(x, float):
         if x != x or x in (math.inf, -math.inf):
             raise EngineError(f"non-finite float {x!r} met a symbolic value")
-        return Fraction(repr(x))
+        return Fraction(repr(float(x)))      # float(): numpy.float64 is a float subclass with its own repr
     try:                                   # numpy scalars
         import numpy as np
         if isinstance(x, np.floating):
